@@ -287,6 +287,8 @@ func (m *Msg) Pack(b []byte, compression bool, size int) (int, error) {
 		compressionMap = newCompressionMap()
 		defer releaseCompressionMap(compressionMap)
 	}
+	// Number of questions/records that were actually packed.
+	var packedQ, packedAn, packedNs, packedAr uint16
 	for _, q := range m.Questions {
 		if size > 0 && off+q.Len() > size {
 			msgHdr.Truncated = true
@@ -296,6 +298,7 @@ func (m *Msg) Pack(b []byte, compression bool, size int) (int, error) {
 		if off, err = q.pack(b, off, compressionMap); err != nil {
 			return off, newSectionErr("question", err)
 		}
+		packedQ++
 	}
 
 	for _, r := range m.Answers {
@@ -307,6 +310,7 @@ func (m *Msg) Pack(b []byte, compression bool, size int) (int, error) {
 		if off, err = r.pack(b, off, compressionMap); err != nil {
 			return off, newSectionErr("answer", err)
 		}
+		packedAn++
 	}
 	for _, r := range m.Authorities {
 		if size > 0 && off+r.packLen() > size {
@@ -317,6 +321,7 @@ func (m *Msg) Pack(b []byte, compression bool, size int) (int, error) {
 		if off, err = r.pack(b, off, compressionMap); err != nil {
 			return off, newSectionErr("authority", err)
 		}
+		packedNs++
 	}
 	for _, r := range m.Additionals {
 		if size > 0 && off+r.packLen() > size {
@@ -327,6 +332,7 @@ func (m *Msg) Pack(b []byte, compression bool, size int) (int, error) {
 		if off, err = r.pack(b, off, compressionMap); err != nil {
 			return off, newSectionErr("additional", err)
 		}
+		packedAr++
 	}
 
 	if edns0Opt != nil {
@@ -335,8 +341,16 @@ func (m *Msg) Pack(b []byte, compression bool, size int) (int, error) {
 		if off, err = edns0Opt.pack(b, off, compressionMap); err != nil {
 			return off, newSectionErr("additional", err)
 		}
+		packedAr++
 	}
 
+	// The header must describe what was packed: the TC bit if something
+	// was left out, and the real section counts.
+	h.id, h.bits = msgHdr.Pack()
+	h.questions = packedQ
+	h.answers = packedAn
+	h.authorities = packedNs
+	h.additionals = packedAr
 	h.pack(b[:12])
 	return off, nil
 }
